@@ -18,7 +18,7 @@ Theorem C02_time_is_abstract :
   forall codes tick ops c l,
     no_collision codes ops = true ->
     reported_time (run codes tick 0 ops) c l = atm (a_run codes tick 0 ops) c l.
-Proof. intros codes tick ops c l H. exact (proj2 (reported_is_abstract codes tick ops c l H)). Qed.
+Proof. exact reported_time_is_abstract. Qed.
 
 (* EXACTNESS.  g_run is the per-activation reference of the property text: one pending slot per
    activation segment (frame f, segment s); each accepted line event closes the pending line of ITS OWN
